@@ -131,7 +131,8 @@ pub struct Rec {
     pub topic: u8,          // 4 flags
 }
 
-pub const FOREIGN_STREAM: u32 = 9;
+/// equal to the target topic id of target (1,2): a rule that swaps its stream and topic arguments then consults this record
+pub const FOREIGN_STREAM: u32 = 2;
 pub const FOREIGN_TOPIC: u32 = 9;
 
 fn gp(bits: u16) -> GlobalPermissions {
@@ -362,7 +363,7 @@ pub fn rule_layer(ctx: &Ctx, rep: &mut ShardReport) {
                 if let Ok(b0) = outcomes(&none, s, t) {
                     if b0 != base {
                         let diff = first_rule_diff(b0, base);
-                        rep.violation(v("isolation", &format!("foreign-stream/{diff}"), json!({"record": rec.json(), "target": [s, t], "rule": diff, "note": "record for stream 9 only changed an outcome for stream 1"})));
+                        rep.violation(v("isolation", &format!("foreign-stream/{diff}"), json!({"record": rec.json(), "target": [s, t], "rule": diff, "note": "record for the foreign stream (id 2) only changed an outcome for stream 1"})));
                     }
                 }
             }
